@@ -208,7 +208,7 @@ def canon(v):
         scale, dim = unit_info(v.unit)
         idx = v.value.index
         ks = [int(x) for x in (idx.asi8 // 10 ** 9)]
-        return {"t": "h", "ks": ks, "vs": [float(x) for x in v.value["value"].values._data],
+        return {"t": "h", "ks": ks, "vs": [float("nan") if x is pd.NA else float(x) for x in v.value["value"].values._data],
                 "scale": scale, "dim": dim, "aware": idx.tz is not None, "unit": str(v.unit)}
     if isinstance(v, ExplainableQuantity):
         scale, dim = unit_info(v.value.units)
